@@ -698,7 +698,7 @@ def _ints(args):
     return vals
 
 
-@model(r"^core::num::<impl (usize|u64|u32|i32|i64|isize|u8|u16)>::(div_ceil|saturating_sub|saturating_add|wrapping_sub|wrapping_mul|"
+@model(r"^core::num::<impl (usize|u64|u32|i32|i64|isize|u8|u16)>::(div_ceil|saturating_sub|saturating_add|saturating_mul|wrapping_sub|wrapping_mul|"
        r"pow|abs_diff|min|max|next_power_of_two|is_power_of_two|div_euclid|rem_euclid|is_multiple_of|abs|signum|"
        r"checked_add|checked_sub|checked_mul|checked_div|unsigned_abs|leading_zeros|trailing_zeros|count_ones|isqrt|ilog2|midpoint)$",
        "std integer methods (exact integer semantics)")
@@ -736,6 +736,8 @@ def m_int_methods(eng, callee, args):
         return max(lo, min(hi, a - b))
     if op == "saturating_add":
         return max(lo, min(hi, a + b))
+    if op == "saturating_mul":
+        return max(lo, min(hi, a * b))
     if op == "wrapping_sub":
         return wrap(a - b)
     if op == "wrapping_mul":
